@@ -39,7 +39,7 @@ func ovRes(cpu string) corev1.ResourceRequirements {
 
 var ovCPUs = []string{"100m", "250m", "1", "2500m", "1000m", "0.5"} // incl. valid non-canonical spellings
 
-var ovSelectors = []map[string]string{{"zone": "a"}, {"zone": "b"}, {"role": "agent"}, {"zone": "c", "role": "agent"}}
+var ovSelectors = []map[string]string{{"zone": "a"}, {"zone": "b"}, {"role": "agent"}, {"zone": "c", "role": "agent"}, {}}
 
 // settingsOf lists the stored settings of a namespace.
 func (w *World) settingsOf(ns string) []*v1.ExtendedDaemonsetSetting {
@@ -65,10 +65,16 @@ func (w *World) newSetting(r *rand.Rand, ns, eds string) {
 	}
 	s.Spec.NodeSelector = metav1.LabelSelector{MatchLabels: ovSelectors[r.Intn(len(ovSelectors))]}
 	cn := ovContainer
-	if r.Intn(6) == 0 {
+	k := r.Intn(6)
+	if k == 0 {
 		cn = "sidecar" // names a container the template does not have
 	}
 	s.Spec.Containers = []v1.ExtendedDaemonsetSettingContainerSpec{{Name: cn, Resources: ovRes(ovCPUs[r.Intn(len(ovCPUs))])}}
+	if k == 1 || k == 2 {
+		// a setting for two containers (the second one absent from the template); one setting object is
+		// attached to every node it selects, also to nodes whose annotation overrides the first container
+		s.Spec.Containers = append(s.Spec.Containers, v1.ExtendedDaemonsetSettingContainerSpec{Name: "sidecar", Resources: ovRes(ovCPUs[r.Intn(len(ovCPUs))])})
+	}
 	w.S.Inject(s)
 	w.tracef("user: create setting %s/%s selector=%v container=%s resources=%v", ns, name, s.Spec.NodeSelector.MatchLabels, cn, s.Spec.Containers[0].Resources.Requests)
 }
